@@ -187,4 +187,30 @@ def run_c14(ctx):
         else:
             sig = "C14 triggered-pass-ends-above-low-water-with-unprotected-entries-left mode=%s" % ("compressed" if c["compress"] else "uncompressed")
         ctx.violation(sig, dict(case=c, observed=o))
+    # marks made while the pass is running (a Store / Retrieve of this process racing the background cleaner): the cleaner
+    # is held at its k-th eviction step by a gate point, an entry is marked, the cleaner continues
+    rng = random.Random(ctx.seed + 5)
+    race = []
+    pool = [c for c in cases if c["triggered"] and not c["inprog"] and len(c["entries"]) >= 2 and not all(e["marked"] for e in c["entries"])]
+    for c in (rng.sample(pool, min(len(pool), 300 if ctx.quick else 3000))):
+        n = len(c["entries"])
+        for k in range(1, n + 1):
+            who = rng.randint(1, n)
+            if not c["entries"][who - 1]["marked"]:
+                race.append(dict(entries=c["entries"], high=c["high"], low=c["low"], compress=c["compress"], inprog=False, gateAt=k, who=who))
+    for i, c in enumerate(race):
+        c["id"] = i
+    robs = vlib.run_vh(ctx, "dircache-cleanrace", race, timeout=3000)
+    judged_race = 0
+    for c in race:
+        o = robs[c["id"]]
+        if o["gated"] and o["presentAtMark"]:
+            judged_race += 1
+            ctx.count(json.dumps(["race", c["entries"], c["high"], c["low"], c["compress"], c["gateAt"], c["who"]]), nontrivial=True,
+                      sample=dict(case=c, observed=o) if judged_race == 1 else None)
+            if not o["presentAtEnd"]:
+                ctx.violation("C14 entry-marked-during-the-pass-removed mode=%s" % ("compressed" if c["compress"] else "uncompressed"),
+                              dict(case=c, observed=o))
+    ctx.extra["late_mark_cases_judged"] = judged_race
+    ctx.traces_validated += judged_race
     ctx.exhaustive = True
